@@ -106,6 +106,14 @@ func genFlows(r *sim.Rand, small bool) []flowSpec {
 		f := flowSpec{Name: fmt.Sprintf("f%d", i)}
 		if i > 0 && r.Chance(2, 5) {
 			f.URL = out[r.Intn(len(out))].URL
+			// the same pattern under another accepted spelling (the tree trims a trailing '/')
+			if r.Chance(1, 3) && !strings.HasSuffix(f.URL, "*") {
+				if strings.HasSuffix(f.URL, "/") {
+					f.URL = strings.TrimSuffix(f.URL, "/")
+				} else {
+					f.URL += "/"
+				}
+			}
 		} else {
 			f.URL = genPattern(r)
 		}
